@@ -126,6 +126,7 @@ class C08(Prop):
             if differs:
                 out.nontrivial = True
                 out.add("cuts", "%s:%d" % (spec.get("seed"), k))
+                out.item("cut:%d" % k)
             prev = part
         out.digest = None
         return out
